@@ -1,5 +1,6 @@
 (* C11 — memory_warm_start rows are trusted verbatim and never re-evaluated.  Statements only. *)
 Require Import Base StopRun Converter Driver DriverObs DriverFacts ConverterFacts MemFacts C04_proofs C11_proofs.
+Require Import PyPrims PyPrimsQ MemGen MemTie.
 
 (* the warm-start frame becomes exactly {position of the row's values |-> score of the LAST such row},
    for dimensions with pairwise distinct values in any order *)
@@ -37,3 +38,14 @@ Proof. vm_compute. split; reflexivity. Qed.
 Example C11_descending_refuted_unfixed :
   Legacy.values2positions_unfixed_1d [3; 2; 1] [3] = [3] /\ values2positions [[3; 2; 1]] [[3]] = Ok [[0]].
 Proof. exact descending_warm_start_key_unfixed. Qed.
+
+(* ---------- the wrapper GENERATED from /repo's _memory.py (generated/MemGen.v) refines the memory branch of the model's lookup,
+   which the theorems above are about: for every dictionary state, objective and value vector (parameter names pairwise distinct) *)
+Theorem C11_source_memory_wrapper_refines : forall (OP : optimizer) sp names f (s : drv OP) (v : values),
+  NoDup names -> length names = length v -> c_memory (d_call s) = true ->
+  match g_Memory_wrapper sp names f (mem_of s) (value2para names v) with
+  | Ok (g', r) => lookup sp f s v = Ok (r, with_mem s g')
+  | Err e => lookup sp f s v = Err e
+  end.
+Proof. exact (@memory_wrapper_tie). Qed.
+Print Assumptions C11_source_memory_wrapper_refines.
